@@ -302,6 +302,8 @@ class G:
                 r = 0.75 + r / 3
             if nargs and r < 0.5:
                 body.append({'t': 'param', 'n': rng.randint(1, nargs)})
+                if rng.random() < 0.12:
+                    body[-1]['tail'] = rng.choice(['0', '2', '000', '15'])     # "#1" directly followed by digits
             elif r < 0.75:
                 body.append(self.word())
             elif r < 0.85:
@@ -529,7 +531,7 @@ def r_verbatim(n, r):
 def r_skip(n, r):
     r.emit('%%% LT-SKIP-BEGIN\n'); with_role(r, 'hidden', lambda: render(n['body'], r)); r.emit('\n%%% LT-SKIP-END\n')
 def r_param(n, r):
-    r.emit('#' + str(n['n']))
+    r.emit('#' + str(n['n']) + n.get('tail', ''))
 def r_newcommand(n, r):
     m = n['m']
     if m['cmd'] == '\\def':
@@ -648,6 +650,36 @@ def edge_docs(rng, k=1):
             out.append(r)
     return out
 
+GLS_MACROS = ['\\gls', '\\Gls', '\\GLS', '\\glspl', '\\Glspl', '\\glsdesc', '\\Glsdesc', '\\glstext', '\\Glstext', '\\glsname',
+              '\\glsfirst', '\\acrshort', '\\acrlong', '\\acrfull', '\\glssymbol']
+
+def gls_doc(rng):
+    """G-gls: a glossary data base (.glsdefs, read with \\LTinput) whose fields contain tokens longer than one
+    character (runs of blanks, indented continuation lines, \\verb, ligature sequences), and uses of the
+    \\gls family, the last one at the very end of the text"""
+    names = Names(rng)
+    def field():
+        parts = []
+        for _ in range(rng.randint(1, 3)):
+            parts.append(names.word())
+            parts.append(rng.choice([' ', ' ', '\n        ', '     ', ' -- ', '~', ' \\verb|a b| ', " ``x'' ", ' \\"a', ' {\\bf ', ', ']))
+        w = ''.join(parts).rstrip()
+        return w + '}' * (w.count('{') - w.count('}'))
+    labs = ['l%d' % k for k in range(rng.randint(1, 3))]
+    lines = []
+    for l in labs:
+        first = rng.choice(['', '', 'ß', 'é'])
+        lines.append('\\gls@defglossaryentry{%s}{name={%s},text={%s},plural={%s},description={%s},symbol={%s}}' % (
+            l, field(), first + field(), field(), field(), field()))
+    body = []
+    for _ in range(rng.randint(1, 5)):
+        body.append(names.word() + rng.choice([' ', '\n', ' ']))
+        body.append(rng.choice(GLS_MACROS) + '{' + rng.choice(labs + ['nolab'] if rng.random() < 0.1 else labs) + '}' + rng.choice([' ', '', '\n']))
+    src = '\\LTinput{g.glsdefs}\n' + ''.join(body)
+    if rng.random() < 0.6:
+        src = src.rstrip()
+    return src, {'g.glsdefs': '\n'.join(lines) + '\n'}
+
 def make_doc(rng, profile=None, n=None):
     g = G(rng, profile)
     ast = g.document(n)
@@ -658,7 +690,7 @@ def make_doc(rng, profile=None, n=None):
 # --------------------------------------------------------------------------
 # derived streams
 
-SOUP = (['\\', '{', '}', '$', '$$', '%', '#', '#1', '#3', '&', '~', '^', '_', '[', ']', '*', ' ', '\n', '\n\n', '\t',
+SOUP = (['#10', '#1000', '#0', '\\\\ ', '\\\\  x', '\r\n', '\r', '\f', '\x0b', '\x1c', '\x85', '\u2028', '\u2029', '\\', '{', '}', '$', '$$', '%', '#', '#1', '#3', '&', '~', '^', '_', '[', ']', '*', ' ', '\n', '\n\n', '\t',
          'a', 'Z', '1', '.', ',', '-', '--', '``', "''", '"', '\u00a0', '\u2003', '\u0663', '\u00e4', '\u00df',
          '\\begin', '\\end', '\\item', '\\verb', '\\verb|', '\\begin{verbatim}', '\\end{verbatim}', '\\[', '\\]', '\\(', '\\)',
          '\\\\', '\\\\[', "\\'", '\\"', '\\c', '\\def', '\\newcommand', '\\renewcommand', '\\section', '\\footnote', '\\cite',
@@ -690,6 +722,12 @@ def mutations(rng, src, k=6):
         if r < 0.4:
             cut = rng.randint(0, len(src))
             out.append(src[:cut])
+            continue
+        if r < 0.46:
+            out.append(exotic_breaks(rng, src))
+            continue
+        if False:
+            pass
         elif r < 0.75:
             i = rng.randrange(len(toks))
             out.append(''.join(toks[:i] + toks[i + 1:]))
@@ -701,6 +739,24 @@ def mutations(rng, src, k=6):
             i = rng.randrange(len(toks) + 1)
             out.append(''.join(toks[:i]) + rng.choice(SOUP) + ''.join(toks[i:]))
     return out
+
+EXOTIC = ['\r\n', '\r', '\f', '\x0b', '\x1c', '\x1d', '\x1e', '\x85', '\u2028', '\u2029', '\u00a0', '\u2003']
+
+def exotic_breaks(rng, src, all_crlf=None):
+    """the same document with other line conventions: CR LF for every line break, or some white-space
+    characters replaced by / followed by characters that str.splitlines() or \\s treat specially"""
+    if all_crlf is None:
+        all_crlf = rng.random() < 0.5
+    if all_crlf:
+        return src.replace('\n', '\r\n')
+    out = []
+    for ch in src:
+        if ch in ' \n' and rng.random() < 0.15:
+            x = rng.choice(EXOTIC)
+            out.append(rng.choice([x, ch + x, x + ch]))
+        else:
+            out.append(ch)
+    return ''.join(out)
 
 LANGS = ['', 'en', 'de', 'ru', 'de-DE', 'en-GB', 'xx', 'fr']
 
